@@ -18,7 +18,7 @@ ASSUMPTIONS = ['stationary sensor: acc and mag are exact images of the filter\'s
                'oracle: every row finite and unit; error(H) <= tol; error <= tol over the last 10 % of the run; final error <= max(initial error, tol)',
                'accelerometer-only variants are judged on tilt only; AQUA\'s state is the conjugate attitude; filters without a q0 are started far away by making the first sample consistent with the initial attitude',
                'initial errors up to 175 degrees; exactly opposite is excluded as in the statement']
-REQUIRED_CLASSES = ['streaming', 'dropped-samples', 'err0=0', 'err0<=30', 'err0>=150', 'full-attitude', 'tilt-only']
+REQUIRED_CLASSES = ['parameter-carriers', 'streaming', 'dropped-samples', 'err0=0', 'err0<=30', 'err0>=150', 'full-attitude', 'tilt-only']
 
 DIP = 60.0
 TRUTHS = [np.array([1.0, 0, 0, 0]), np.array([0.0, 1.0, 0, 0]), rq.axang2q([0, 1, 0], math.pi / 2), None, None, rq.qunit([0.35, 0.6, -0.6, 0.4])]
@@ -190,6 +190,8 @@ def job_orbits(ctx, key, ci, ti, k):
                 settle = t
                 break
         ctx.track(f'settle:{key}#{ci}', settle)
+        peak = max(_err_deg(r, Qa[t], qt, tilt_only, g) for t in list(range(0, min(H, 400))) + list(range(400, H, step)))
+        ctx.track(f'peak_minus_initial_deg:{key}#{ci}', max(0.0, peak - max(e0, tol)))
         ctx.track(f'final_err_deg:{key}#{ci}', eH)
         ctx.expect(eH <= tol, f'{key}: error at the horizon below tolerance', kk, {'err_deg': eH, 'err0_deg': e0}, tol, tol)
         ctx.expect(max(errs_tail) <= tol, f'{key}: stays within tolerance over the last 10 % of the run', kk, max(errs_tail), tol, tol)
@@ -275,6 +277,68 @@ def job_stream(ctx, key, ci, k):
     ctx.sample({'filter': key, 'cfg': cfg, 'horizon': H, 'carriers': CARRIERS})
 
 
+def job_param_carriers(ctx, k):
+    """Array-valued constructor parameters (initial covariance, noise variances, reference vector, initial bias, weights, a-priori) written as
+    INTEGER arrays / nested lists of ints / tuples instead of float64 arrays: the run converges exactly as the run given the same numbers as
+    floats - the two estimate histories are equal (a parameter array that is later updated in place must not keep the caller's dtype)."""
+    from ahrs import filters as F
+    qt = A.MENU[k]
+    Rt = rq.R(qt)
+    H = 600
+    pat = noise_patterns()[4]                       # zero-mean three-sample pattern of amplitude 1e-3 rad/s
+    gyr = np.tile(pat, (H // len(pat) + 1, 1))[:H]
+    q_init = rq.qmul(qt, rq.axang2q([0.3, -0.5, 0.8], math.radians(80.0)))
+
+    def data(g, m):
+        return np.tile(Rt.T @ np.asarray(g, float) * 9.81, (H, 1)), np.tile(Rt.T @ (np.asarray(m, float) / np.linalg.norm(m)) * 45.0, (H, 1))
+    as_int = lambda x: np.asarray(x).astype(np.int64)
+    as_list = lambda x: np.asarray(x).astype(int).tolist()
+    as_tuple = lambda x: tuple(int(v) for v in np.ravel(x)) if np.ndim(x) == 1 else tuple(tuple(int(v) for v in r_) for r_ in np.asarray(x))
+    carriers = [('int64 array', as_int), ('nested list of ints', as_list), ('tuple of ints', as_tuple), ('float32 array', lambda x: np.asarray(x, np.float32))]
+    mref = np.array([3.0, 0.0, 4.0])            # dip 53.13 deg, integer components
+    cases = []
+    for frame in ('NED', 'ENU'):
+        mr = mref if frame == 'NED' else np.array([0.0, 3.0, -4.0])
+        gref = np.array([0.0, 0.0, 1.0]) if frame == 'NED' else np.array([0.0, 0.0, -1.0])
+        acc, mag = data(gref, mr)
+        st = q_init
+        cases += [(f'EKF[{frame}] P=', 'P', np.diag([1.0, 1.0, 1.0, 1.0]), lambda v, acc=acc, mag=mag, mr=mr, frame=frame: F.EKF(gyr=gyr.copy(), acc=acc.copy(), mag=mag.copy(), frame=frame, magnetic_ref=mr.copy(), q0=st.copy(), P=v).Q),
+                  (f'EKF[{frame}] P= (diag 10)', 'P', np.diag([10.0, 10.0, 10.0, 10.0]), lambda v, acc=acc, mag=mag, mr=mr, frame=frame: F.EKF(gyr=gyr.copy(), acc=acc.copy(), mag=mag.copy(), frame=frame, magnetic_ref=mr.copy(), q0=st.copy(), P=v).Q),
+                  (f'EKF[{frame}] IMU P=', 'P', np.diag([1.0, 1.0, 1.0, 1.0]), lambda v, acc=acc, frame=frame: F.EKF(gyr=gyr.copy(), acc=acc.copy(), frame=frame, q0=st.copy(), P=v).Q),
+                  (f'EKF[{frame}] noises=', 'noises', np.array([1.0, 2.0, 3.0]), lambda v, acc=acc, mag=mag, mr=mr, frame=frame: F.EKF(gyr=gyr.copy(), acc=acc.copy(), mag=mag.copy(), frame=frame, magnetic_ref=mr.copy(), q0=st.copy(), noises=v).Q),
+                  (f'EKF[{frame}] magnetic_ref=', 'magnetic_ref', mr, lambda v, acc=acc, mag=mag, frame=frame: F.EKF(gyr=gyr.copy(), acc=acc.copy(), mag=mag.copy(), frame=frame, magnetic_ref=v, q0=st.copy()).Q),
+                  (f'ROLEQ[{frame}] magnetic_ref=', 'magnetic_ref', mr, lambda v, acc=data(-gref, mr)[0], mag=mag, frame=frame: F.ROLEQ(gyr=gyr.copy(), acc=acc.copy(), mag=mag.copy(), frame=frame, magnetic_ref=v, q0=st.copy()).Q),
+                  (f'ROLEQ[{frame}] weights=', 'weights', np.array([1.0, 2.0]), lambda v, acc=data(-gref, mr)[0], mag=mag, mr=mr, frame=frame: F.ROLEQ(gyr=gyr.copy(), acc=acc.copy(), mag=mag.copy(), frame=frame, magnetic_ref=mr.copy(), q0=st.copy(), weights=v).Q)]
+    accN, magN = data([0.0, 0.0, 1.0], [0.0, 3.0, -4.0])
+    cases += [('Mahony b0=', 'b0', np.array([0.0, 0.0, 0.0]), lambda v: F.Mahony(gyr=gyr.copy(), acc=accN.copy(), mag=magN.copy(), q0=q_init.copy(), b0=v).Q),
+              ('Mahony IMU b0=', 'b0', np.array([1.0, 0.0, -1.0]), lambda v: F.Mahony(gyr=gyr.copy(), acc=accN.copy(), q0=q_init.copy(), b0=v).Q),
+              ('UKF P=', 'P', np.diag([1.0, 1.0, 1.0, 1.0]), lambda v: F.UKF(gyr=gyr[:40].copy(), acc=accN[:40].copy(), q0=qt.copy(), P=v).Q),
+              ('Madgwick q0= (axis-aligned)', 'q0', np.array([0.0, 1.0, 0.0, 0.0]), lambda v: F.Madgwick(gyr=gyr.copy(), acc=accN.copy(), mag=magN.copy(), q0=v).Q),
+              ('Complementary w0=', 'w0', np.array([1.0, 0.0, -2.0]), lambda v: F.Complementary(gyr=gyr.copy(), acc=accN.copy(), mag=magN.copy(), w0=v).Q)]
+    for name, pn, val, run_ in cases:
+        try:
+            np.random.seed(4)
+            ref = np.asarray(run_(np.array(val, float)), float)
+        except Exception as ex:
+            ctx.outcome(('param-carrier-reference-run-raises', name, type(ex).__name__)); continue
+        for cn, conv in carriers:
+            key = f'{name} as {cn} k{k}'
+            ctx.evals += 1
+            try:
+                np.random.seed(4)
+                out = np.asarray(run_(conv(val)), float)
+            except (TypeError, AttributeError):
+                ctx.outcome(('param-carrier-refused', name, cn)); continue
+            except Exception as ex:
+                ctx.fail(f'{name.split(" ")[0]}: raises when the parameter {pn} is carried by another numeric type / container', key, f'{type(ex).__name__}: {ex}'[:160], 'the estimates of the float64 run'); continue
+            tol = 1e-4 if 'float32' in cn else 1e-12
+            ok = out.shape == ref.shape and bool(np.all(np.isfinite(out))) and min(float(np.abs(out - ref).max()), float(np.abs(out + ref).max())) <= tol
+            ctx.expect(ok, f'{name.split(" ")[0]}: the same estimates (hence the same convergence) whatever numeric type / container carries the parameter {pn}', key,
+                       {'max difference': float(np.abs(out - ref).max()) if out.shape == ref.shape else None, 'last row': out[-1].tolist() if out.ndim == 2 else None}, {'last row': ref[-1].tolist()}, tol)
+            ctx.seen(('param-carrier', name, cn))
+    ctx.cls('parameter-carriers')
+
+
 def run(ctx):
     k = A.seed_k(ctx.seed)
     jobs = []
@@ -292,5 +356,6 @@ def run(ctx):
                 jobs.append(('job_stream', (key, ci, k)))
     # longest jobs first
     jobs.sort(key=lambda j: -CONFIGS[j[1][0]][j[1][1]][1])
+    jobs.append(('job_param_carriers', (k,)))
     core.run_jobs(ctx, __name__, jobs)
     ctx.notes['configs'] = {k: [(c[0], c[1], c[2]) for c in v] for k, v in CONFIGS.items()}
